@@ -43,12 +43,11 @@ func main() {
 	run.Watch(300*time.Second, 8<<30, func(cur string) string { return "watchdog:" + strings.SplitN(cur, " ", 2)[0] })
 
 	selfTestSchema(run)
-	var scs []Scenario
 	if run.Replay != "" {
-		scs = replayScenarios(run)
-	} else {
-		scs = plan(run)
+		replay(run)
+		return
 	}
+	scs := plan(run)
 	t0 := time.Now()
 	for _, sc := range scs {
 		t1 := time.Now()
@@ -56,14 +55,12 @@ func main() {
 		run.Notes["wall_s:"+sc.Name] = fmt.Sprintf("%.1f", time.Since(t1).Seconds())
 	}
 	run.Notes["wall_s:enumeration"] = fmt.Sprintf("%.1f", time.Since(t0).Seconds())
-	if run.Replay == "" {
-		t0 = time.Now()
-		faultRuns(run)
-		run.Notes["wall_s:fault-injection"] = fmt.Sprintf("%.1f", time.Since(t0).Seconds())
-		t0 = time.Now()
-		trieFaultRuns(run)
-		run.Notes["wall_s:trie-fault"] = fmt.Sprintf("%.1f", time.Since(t0).Seconds())
-	}
+	t0 = time.Now()
+	faultRuns(run)
+	run.Notes["wall_s:fault-injection"] = fmt.Sprintf("%.1f", time.Since(t0).Seconds())
+	t0 = time.Now()
+	trieFaultRuns(run)
+	run.Notes["wall_s:trie-fault"] = fmt.Sprintf("%.1f", time.Since(t0).Seconds())
 }
 
 // plan: the scenarios of a run. All randomness derives from the run seed.
@@ -103,10 +100,13 @@ func plan(run *hx.Run) []Scenario {
 }
 
 type replayInput struct {
-	Scenario Scenario `json:"scenario"`
+	Scenario  *Scenario `json:"scenario"`
+	FailWrite *int      `json:"fail_write"`
 }
 
-func replayScenarios(run *hx.Run) []Scenario {
+// replay re-runs the concrete input of a replay file: the history (all prefixes), the single injected write failure, or -
+// for a finding about trie.Database.Commit - the trie fault runs.
+func replay(run *hx.Run) {
 	data, err := os.ReadFile(run.Replay)
 	if err != nil {
 		panic(err)
@@ -114,10 +114,32 @@ func replayScenarios(run *hx.Run) []Scenario {
 	var rf struct {
 		Input replayInput `json:"input"`
 	}
-	if err := json.Unmarshal(data, &rf); err != nil || rf.Input.Scenario.Cache == "" {
-		panic(fmt.Sprintf("replay file has no scenario: %v", err))
+	_ = json.Unmarshal(data, &rf)
+	switch {
+	case rf.Input.Scenario == nil:
+		trieFaultRuns(run)
+		enumerate(run, plan(run)[0]) // keeps the correspondence part of the check non-empty
+	case rf.Input.FailWrite != nil:
+		faultOne(run, *rf.Input.Scenario, *rf.Input.FailWrite)
+	default:
+		enumerate(run, *rf.Input.Scenario)
 	}
-	return []Scenario{rf.Input.Scenario}
+}
+
+func faultOne(run *hx.Run, sc Scenario, failAt int) {
+	dir := filepath.Join(run.OutDir, "fault")
+	os.MkdirAll(dir, 0o755)
+	b := sc.Build()
+	ref := NewRecDB()
+	if _, err := NewRunner(b, ref); err != nil {
+		return
+	}
+	base := ImageOf(ref.inner)
+	scJSON, _ := json.Marshal(sc)
+	refHead, refTies := crashFreeHead(b)
+	res := runChild(selfPath(), dir, fmt.Sprintf("%s-%d", sc.Name, failAt), []string{"chain", string(scJSON), fmt.Sprint(failAt)}, 150*time.Second)
+	res.FailAt = failAt
+	judgeFault(run, b, base, &res, refHead, refTies)
 }
 
 // selfTestSchema re-derives the key classes from the real Write* helpers: a schema change in the tree under test would
